@@ -211,6 +211,10 @@ func goldenPlan() []GoldenEntry {
 		}
 	}
 	add("NONE", "TPAQ", gen.KText, 8<<20+4096, 8<<20+4096, 0, false)
+	// one block beyond the 4 MiB internal chunk of FPAQ and ANS1 (the second chunk starts from fresh statistics)
+	add("NONE", "FPAQ", gen.KText, 4<<20+4096, 8<<20, 32, false)
+	add("NONE", "ANS1", gen.KText, 4<<20+4096, 8<<20, 0, false)
+	add("RLT", "FPAQ", gen.KLatin1, 9<<20, 16<<20, 64, false)
 	return es
 }
 
